@@ -15,7 +15,7 @@ pub fn knobs(rng: &mut Rng, lkm: bool) -> Knobs {
             must.push(t);
         }
     }
-    Knobs { n_funcs: 1 + rng.below(6) as usize, max_blocks: 3 + rng.below(8) as usize, must_call: must, lkm }
+    Knobs { n_funcs: 1 + rng.below(6) as usize, max_blocks: 3 + rng.below(8) as usize, must_call: must, lkm, lost_roots: false }
 }
 
 /// Checks that can run with the shipped lkm_config.json: the kernel-module subset plus the checks that need
